@@ -126,6 +126,7 @@ fn run(sim: &Sim, cfg: &RunCfg) -> RunOut {
                     need_reply,
                     policy,
                     adapter_mutex: t.chance(1, 2),
+                    hdr_noise: 0,
                 }
             });
             let d = format!("subset={sub:#x} {}", fe::describe(&sess));
